@@ -28,6 +28,7 @@ pub static SPEC: Spec = Spec {
         "has_probed_beyond_length_in_following_pages",
         "crash_points",
         "big_core_observations",
+        "replica_completed_a_full_page",
     ],
     rule: "a case = one history scaled so that block indices cross 8192 / 32768 / 65536 (98304 in thorough): batch appends of 8000-40000 one-byte blocks, clears straddling page edges, reopen after steps, replicas fetching blocks pages apart and out of order, sampled crash recovery (64 journal prefixes per big history); after EVERY step has(i) is probed for EVERY i < length+2 plus 6 offsets in each of the next 4 pages plus 2^32, 2^40-1, u64::MAX and compared with the model (true exactly for stored blocks), and info().contiguous_length must equal the smallest missing index; small histories: the bounded-exhaustive L=4 set and seeded-random histories with the same oracle; distinct = history hash; evaluations = histories + crash points",
     assumptions: &["get() is sampled on big cores (64 indices incl. page edges); has() is exhaustive below length+2"],
@@ -35,7 +36,7 @@ pub static SPEC: Spec = Spec {
     hang_secs: 480,
 };
 
-const DIRECTED: u64 = 10;
+const DIRECTED: u64 = 11;
 
 fn big(n: u32, base: u32) -> Op {
     Op::Batch((0..n).map(|i| (base + i, 1)).collect())
@@ -182,6 +183,29 @@ fn replica_contiguous_across_edge(ctx: &mut Ctx, r: &mut Rng) -> Result<(), Fail
     Ok(())
 }
 
+/// A replica of a log of exactly one bitfield page (32768 blocks) that receives block 0 last:
+/// the update then has to walk over a page that is full up to its very end.
+fn replica_full_page(ctx: &mut Ctx, r: &mut Rng) -> Result<(), Fail> {
+    let n: u32 = 32_768;
+    let mut w = Sut::create(r.next_u64(), World::new(), CacheMode::None)?;
+    repl::apply_writer_ops(&mut w, &[big(n, 1)])?;
+    let mut rep = Replica::create(&w.key, CacheMode::None)?;
+    repl::round(&mut w, &mut rep, &Plan { upgrade: Some(n as u64), ..Default::default() })?;
+    for b in [3u64, 2, 1] {
+        repl::round(&mut w, &mut rep, &Plan { block: Some(b), ..Default::default() })?;
+    }
+    for b in (4..n as u64).rev() {
+        repl::round(&mut w, &mut rep, &Plan { block: Some(b), ..Default::default() })?;
+    }
+    rep.check(CMP_ALL, 8, "before the last block")?;
+    repl::round(&mut w, &mut rep, &Plan { block: Some(0), ..Default::default() })?;
+    rep.check(CMP_ALL, 8, "after block 0 completed a full page")?;
+    ctx.count("replica_completed_a_full_page");
+    rep.reopen()?;
+    rep.check(CMP_ALL, 8, "full page after reopen")?;
+    Ok(())
+}
+
 fn sampled_crashes(ctx: &mut Ctx, ops: &[Op], key_seed: u64, r: &mut Rng, n: usize) {
     let rec = match crash::record_history(key_seed, ops) {
         Ok(r) => r,
@@ -262,6 +286,12 @@ fn run_case(ctx: &mut Ctx, id: u64) {
                 ctx.eval(Some(0xF0 + di));
                 if let Err(f) = replica_far(ctx, &mut r, di - 7) {
                     ctx.violate(f.sig, f.detail, json!({"kind":"replica-far","variant":di-7}));
+                }
+            }
+            10 => {
+                ctx.eval(Some(0xFA));
+                if let Err(f) = replica_full_page(ctx, &mut r) {
+                    ctx.violate(f.sig, f.detail, json!({"kind":"replica-full-page"}));
                 }
             }
             9 => {
